@@ -100,14 +100,14 @@ def run(ck):
             ck.count(f'X={xc}/{xdt}'); ck.count(f'y={yc}/{ydt}/{ysh}')
             probs = []
             if task == 'reg':
-                if pred.shape != (len(Q), 1) or pred.dtype != np.float32:
-                    probs.append(f'regression predictions have shape {pred.shape} dtype {pred.dtype}, expected ({len(Q)}, 1) float32')
+                if pred.shape != (len(Q), 1) or not np.issubdtype(pred.dtype, np.floating):
+                    probs.append(f'regression predictions have shape {pred.shape} dtype {pred.dtype}, expected an ({len(Q)}, 1) float array')
             else:
                 if pred.shape != (len(Q),) or not np.issubdtype(pred.dtype, np.integer):
                     probs.append(f'classification predictions have shape {pred.shape} dtype {pred.dtype}, expected ({len(Q)},) integer')
                 if proba.shape != (len(Q), K):
                     probs.append(f'probabilities have shape {proba.shape}, expected ({len(Q)}, {K})')
-            cur = (leaf_inputs, pred.tobytes(), None if proba is None else proba.tobytes(), model.split_temperature)
+            cur = (leaf_inputs, (pred.astype(np.float64) if task == 'reg' and np.issubdtype(pred.dtype, np.floating) else pred).tobytes(), None if proba is None else proba.tobytes(), model.split_temperature)
             if ref is None:
                 ref = (cur, rep)
             else:
@@ -127,6 +127,34 @@ def run(ck):
                 cases.append((len(cases), cq))
                 if leaf_inputs[0][2] != 'torch.float32':
                     ck.violation(f'leaf targets have dtype {leaf_inputs[0][2]} for representation {rep}', dict(desc, rep=rep), key='leaf-dtype')
+    # ---- regression on integer-typed targets (count data) with an explicit regression metric: the targets are numbers, whatever width they are stored in — predictions are
+    #      the same float values as for the same numbers stored as float32
+    for j in range(ck.n(2, 6)):
+        nI, dI = 90, 3
+        XI = xr.make_X('random', nI, dI, rng); yI = np.round(3 * np.abs(XI[:, 0]) + rng.random(nI) * 4).astype(np.int64)
+        XvI = xr.make_X('random', 30, dI, rng); yvI = np.round(3 * np.abs(XvI[:, 0]) + rng.random(30) * 4).astype(np.int64)
+        QI = xr.make_X('random', 15, dI, rng)
+        ctorI = dict(rfm_params=xr.default_rfm_params(iters=1, reg=1e-2, bandwidth=3.0), max_leaf_size=[10_000, 35][j % 2], verbose=False, tuning_metric='mse', use_temperature_tuning=False)
+        descI = dict(kind='integer-typed regression targets', j=j, n=nI, L=ctorI['max_leaf_size'], seed=ck.seed)
+        outsI = {}
+        for (yc, ydt, ysh) in [('array', 'float32', 'flat'), ('array', 'int64', 'flat'), ('tensor', 'int32', 'column'), ('array', 'int16', 'column')]:
+            mkI = lambda a: (lambda b: torch.tensor(b) if yc == 'tensor' else b)(a.astype(ydt).reshape(-1, 1) if ysh == 'column' else a.astype(ydt))
+            xr.seed_all(2950 + j + ck.seed)
+            mI = xr.xRFM(**copy.deepcopy(ctorI))
+            try:
+                with xr.quiet():
+                    mI.fit(XI, mkI(yI), XvI, mkI(yvI)); outsI[(yc, ydt, ysh)] = np.asarray(mI.predict(QI))
+            except Exception as e:
+                ck.violation(f'integer-typed regression targets {(yc, ydt, ysh)} are rejected ({e!r}) on {descI}', dict(descI, rep=[yc, ydt, ysh], error=repr(e)), key=json.dumps(dict(site='rejected', y=ydt, task='reg'))); continue
+            ck.case(dict(descI, rep=[yc, ydt, ysh]), nontrivial=True); ck.count(f'regression targets stored as {ydt}')
+            pI = outsI[(yc, ydt, ysh)]
+            if pI.shape != (len(QI), 1) or not np.issubdtype(pI.dtype, np.floating):
+                ck.violation(f'regression predictions for targets stored as {ydt} have shape {pI.shape} dtype {pI.dtype} (first values {pI.reshape(-1)[:4].tolist()}), expected an ({len(QI)}, 1) float array on {descI}',
+                             dict(descI, rep=[yc, ydt, ysh]), key=json.dumps(dict(site='representation', what='integer regression targets dtype')))
+            elif ('array', 'float32', 'flat') in outsI and not np.array_equal(pI.astype(np.float64), outsI[('array', 'float32', 'flat')].astype(np.float64)):
+                ck.violation(f'regression predictions for targets stored as {ydt} differ from those for the same numbers stored as float32 (max diff '
+                             f'{float(np.max(np.abs(pI.astype(np.float64) - outsI[("array", "float32", "flat")].astype(np.float64))))}) on {descI}', dict(descI, rep=[yc, ydt, ysh]),
+                             key=json.dumps(dict(site='representation', what='integer regression targets')))
     # ---- a label alphabet that fills the integer width it is stored in: 128 classes in int8 (largest label 127 = the largest int8), 256 classes in uint8 — the width
     #      is a storage detail of the caller, the fitted predictions are those of the same labels stored in 64 bits
     for j, (Kw, wdt) in enumerate([(128, 'int8'), (256, 'uint8')]):
